@@ -166,7 +166,7 @@ impl Rec {
             samples: Vec::new(),
             extra: BTreeMap::new(),
             sample_cap: 2,
-            fail_cap: 64,
+            fail_cap: std::env::var("VERIF_FAILCAP").ok().and_then(|s| s.parse().ok()).unwrap_or(64),
             suppressed_failures: 0,
         }
     }
@@ -457,6 +457,14 @@ impl Run {
                     None => violations.push(fl),
                 }
             }
+        }
+        if let Ok(p) = std::env::var("VERIF_DUMP") {
+            let mut out = String::new();
+            for v in &violations {
+                out.push_str(&v.desc.to_string());
+                out.push('\n');
+            }
+            let _ = std::fs::write(p, out);
         }
         // grouped summary (stderr)
         {
